@@ -923,9 +923,47 @@ func (c *Ctx) consistentBatches() {
 	c.nilReturnsGuarded(fn, errNil("writeHeadersToTargetStores", w, 0), 1)
 	// appendNewHeaders
 	fa := c.fn(fnAppendNH)
-	cancelled := c.funcObj("chainimport", "ctxCancelled")
 	pb := find(fa, callTo(hi("processBatch")))
-	c.guarded(fa, errNil("ctxCancelled(ctx)", find(fa, callTo(cancelled)), 0), 1, "processBatch", pb, 1, gDominate)
+	if cancelledFn := c.P.Func("chainimport.ctxCancelled"); cancelledFn != nil {
+		cancelled := c.funcObj("chainimport", "ctxCancelled")
+		c.guarded(fa, errNil("ctxCancelled(ctx)", find(fa, callTo(cancelled)), 0), 1, "processBatch", pb, 1, gDominate)
+	} else {
+		// the poll written out (or a helper of another name, seen inlined):
+		// from the arm that found ctx.Done() closed no further batch starts
+		arms := c.selectArms(fa, func(sel *ssa.Select, st *ssa.SelectState) bool {
+			dc, ok := st.Chan.(*ssa.Call)
+			return st.Dir == types.RecvOnly && ok && dc.Call.IsInvoke() && dc.Call.Method.Name() == "Done" && !sel.Blocking
+		}, "ctx.Done() found closed")
+		isPB := func(in ssa.Instruction) bool {
+			for _, x := range pb {
+				if x == in {
+					return true
+				}
+			}
+			return false
+		}
+		construct := c.nm(fa) + " | a cancelled import starts no further batch"
+		var bad []string
+		for _, s := range arms {
+			ir.WalkCtx(s.b, s.idx, s.pred, nil, func(in ssa.Instruction) bool {
+				if isPB(in) {
+					bad = append(bad, "processBatch at "+c.at(in)+" reachable from "+s.desc)
+				}
+				return true
+			})
+		}
+		// the poll lies in front of every batch
+		polled := len(arms) >= 1
+		if polled {
+			sel := arms[0].pred
+			for _, x := range pb {
+				if sel == nil || !sel.Dominates(x.Block()) {
+					polled = false
+				}
+			}
+		}
+		c.verdict(polled && len(bad) == 0, construct, c.P.Pos(fa.Pos()), "a non-blocking poll of ctx.Done() dominates processBatch and its closed arm reaches none", "no poll of ctx.Done() in front of every batch, or: "+join(bad))
+	}
 	// both iterators span the same source range
 	iter := c.method("chainimport", "HeaderImportSource", "Iterator")
 	its := find(fa, callTo(iter))
